@@ -120,7 +120,7 @@ class Explorer:
                                         'spec.c02', 'fpy2.number.context', 'fpy2.transform.path', 'fpy2.transform.cursor', 'fpy2.transform.error',
                                         'fpy2.analysis.format_infer', 'fpy2.number.engine'])
         # stand-in classes for external objects (Python ast nodes) live in spec modules; searched last
-        self.types.default_modules += [m for m in ('spec.c06', 'spec.c07', 'spec.c19x', 'spec.c02x') if index.module(m) is not None]
+        self.types.default_modules += [m for m in ('spec.c06', 'spec.c07', 'spec.c07y', 'spec.c19x', 'spec.c02x') if index.module(m) is not None]
         # searched last: private classes of the format analysis (`_FormatInferInstance`) and the stand-in `DefUseM` of spec/c14x_refine.py as Lemma parameter types
         self.types.default_modules += [m for m in ('fpy2.analysis.format_infer.analysis', 'spec.c14x_refine') if index.module(m) is not None]
         # C13y: probes / stand-ins of spec/c13y.py (SeedProbe, FixProbe ...), searched last
